@@ -85,3 +85,8 @@ MAN = {
             "ref": "5 C10", "note": "trusted: the map model, simdisk's write-unit semantics (tx atomic, bulk chunked), sha256",
             "technique": "deterministic simulation: seeded operation histories + crash/restart fault injection against a reference map model, ddmin-minimised replay"},
 }
+
+# ---- fragments: every tools/plan_d/*.py may update PLAN, LEVEL, RULES, REALSTUB, ASSUME, MAN, NA ----
+import glob as _glob, os as _os
+for _f in sorted(_glob.glob(_os.path.join(_os.path.dirname(_os.path.abspath(__file__)), "plan_d", "*.py"))):
+    exec(compile(open(_f).read(), _f, "exec"))
